@@ -218,3 +218,10 @@ struct CidTimestamp {
     /// Timestamp when cid needs to be retired
     timestamp: Instant,
 }
+
+#[cfg(feature = "__verif-hooks")]
+#[allow(missing_docs, unreachable_pub, dead_code, unused_imports, unused_qualifications)]
+pub mod verif {
+    use super::*;
+    include!(concat!(env!("QUINN_VERIF_HOOKS"), "/proto/connection/cid_state.rs"));
+}
